@@ -21,6 +21,14 @@ type pendingTimeout struct {
 	sessionState
 }
 
+// FixMsgIn hands the message to the wrapped state. Any inbound message ends the pending
+// timeout, so the wrapped state is made current first: the session inspects its current
+// state while processing (e.g. to tell whether a gap recovery is already in progress).
+func (s pendingTimeout) FixMsgIn(session *session, msg *Message) (nextState sessionState) {
+	session.State = s.sessionState
+	return s.sessionState.FixMsgIn(session, msg)
+}
+
 func (s pendingTimeout) Timeout(session *session, event internal.Event) (nextState sessionState) {
 	switch event {
 	case internal.PeerTimeout:
